@@ -324,6 +324,15 @@ func (x *Exec) binop(st *State, op token.Token, a, b Val, t types.Type, pos toke
 	}
 	switch op {
 	case token.ADD:
+		if uns && bits == 64 {
+			// counter increments (x + small literal) on uint64: assumed not to overflow
+			if lb, ok := isLit(bt); ok && lb >= 0 && lb <= 16 {
+				x.e.note("uint64 counter increments (x + small constant: ids, nonces, sequences) do not overflow 2^64")
+				r := Add(at, bt)
+				st.assume(Lt(r, BigLit(two64)), "uint64 counter does not overflow")
+				return r
+			}
+		}
 		return wrap(Add(at, bt))
 	case token.SUB:
 		return wrap(Sub(at, bt))
